@@ -1847,11 +1847,13 @@ def dir_correspondence(ctx, model, cases, results):
             lay = layout(line)
             hi = 1 if line and ord(line[0]) >= 0x80 else 0
             m = -1 if line[:1] and line[0] in R2L else 1 if line[:1] and line[0].isascii() and (line[0].isalnum() or line[0] == '_') else 0
-            cur = -1
+            cur, xo = -1, -1
             if top + k == r['xrow'] and top + k < len(buf) and lay:
                 pos, wid = cursor_cells(buf, r['xrow'], r['xoff'])
                 cur = pos if wid == 1 else -1
-            reqs.append('row %d %d %d %d %d %s %d' % (REF.td, left, cols, hi, m, ';'.join('%d,%d,%d' % (p, w, cell_of(ch)) for ch, p, w in lay) or '-', max(cur, 0)))
+                if all(w == 1 for _, _, w in lay) and cur >= 0:
+                    xo = min(r['xoff'], len(lay) - 1)       # the model computes the cursor position from the offset (cursor_pos)
+            reqs.append('row %d %d %d %d %d %s %d %d' % (REF.td, left, cols, hi, m, ';'.join('%d,%d,%d' % (p, w, cell_of(ch)) for ch, p, w in lay) or '-', max(cur, 0), xo))
             meta.append(('row', ci, pr, k, cur, r['st']['cp'][woff + k], r['st']['c'], dir_context(line)))
     if not reqs:
         return
